@@ -1,6 +1,7 @@
 """C01 - every task execution is justified by the definition, exactly once (token ledger)."""
 from ovf.props.common import batches, family_slices, scale, ASSUME_SIM
 from ovf.workloads import conduct, mon  # noqa: F401  (conduct is a job entry point)
+from ovf.props.sweeps import ctl_sweep  # noqa: F401
 from ovf.props.orders import orders  # noqa: F401
 
 LEVEL = "exploration"
@@ -35,6 +36,9 @@ def jobs(tier, seed):
     # zone of a recorded defect (F20): the looping transition forks to a single-inbound task outside the loop
     js += batches("conduct", scale(tier, 40, 600), scale(tier, 20, 100), gen="loop", P=dict(P, p_loop_fork=1.0, p_loop_fork_single=1.0),
                   gseed=seed + 2, scheds=2, lazy=[0, 50], p_fail=0.08, name="loop-fork-single-inbound")
+    # pause and resume at once with actions in flight (the workflow stays `resuming` while they report)
+    js += family_slices("ctl_sweep", 4128, 24, tier, seed + 2, parts=12, gen="cshape", modes=["pause_resume"], p_fail=0.0,
+                        name="decision-shapes-pause-resume")
     # ... and its lawful neighbour: the outside task is multi-referenced, so every pass gets a route of its own and
     # executions of several passes overlap without colliding
     js += batches("conduct", scale(tier, 40, 600), scale(tier, 20, 100), gen="loop", P=dict(P, p_loop_fork=1.0),
